@@ -30,6 +30,9 @@ STD_VARIANTS = {
 ORDERING_VALUES = {'Less': (1 << 8) - 1, 'Equal': 0, 'Greater': 1}  # i8 -1 as u8 pattern handled by caller
 
 
+INT_TYS = ('u8', 'u16', 'u32', 'u64', 'u128', 'usize', 'i8', 'i16', 'i32', 'i64', 'i128', 'isize')
+
+
 class Path:
     def __init__(self, fn, blocks, end, assumed, decisions, havoc=False):
         self.fn = fn
@@ -142,6 +145,29 @@ def explore(fn, oracle=None, max_visits=2, limit=5000, start=0, stop_blocks=(), 
                 val = oracle(e, {'fn': fn, 'blocks': blocks, 'sym': ps, 'bid': bid, 'assumed': assumed})
                 how = 'oracle'
             targets = t['targets']
+            # `match n { 1 => .., n => .. }` on an integer switches on the value itself: present it as the comparison it is
+            dp0 = t['discr'].get('copy') or t['discr'].get('move')
+            int_switch = dp0 is not None and not dp0['proj'] and fn.local_ty(dp0['local']) in INT_TYS and e[0] not in ('discr', 'const') and len(targets) == 1
+            if int_switch and val is None:
+                cmpe = ('bin', 'Eq', e, ('const', targets[0][0]))
+                ck = _key(cmpe)
+                nxt = []
+                known = assumed.get(ck)
+                for truth, blk in ((1, targets[0][1]), (0, t['otherwise'])):
+                    if known is not None and known != truth:
+                        continue
+                    na = dict(assumed)
+                    na[ck] = truth
+                    nxt.append((blk, na, decisions + [(len(blocks) - 1, bid, cmpe, truth, 'fork')]))
+                for (s_, na, nd) in nxt:
+                    c = visits.get(s_, 0)
+                    if c >= max_visits:
+                        out.append(Path(fn, blocks + [s_], 'cut', na, nd, havoc))
+                        continue
+                    nv = dict(visits)
+                    nv[s_] = c + 1
+                    rec(blocks + [s_], nv, na, nd)
+                return
             if val is not None:
                 tgt = None
                 for v, b in targets:
